@@ -132,7 +132,7 @@ def check(run, replay, prop):
     for i, (f, variant) in enumerate(scheds):
         trace = os.path.join(run.tmp, "trace-%d.ndjson" % i)
         stats = os.path.join(run.tmp, "stats-%d.json" % i)
-        args = ["-sched", f, "-out", trace, "-stats", stats, "-variant", variant]
+        args = ["-sched", f, "-out", trace, "-stats", stats, "-variant", variant, "-gql", "4" if prop == "C20" else "12"]
         if replay:
             args += ["-replayfile"]
         if not thorough:
